@@ -70,11 +70,40 @@ def run_impl(case):
         except (ValueError, TypeError) as e:
             out["flow"] = {"err": type(e).__name__}
             return out
+        bins = None
+        if case["mode"] != "int":
+            rep = case.get("bins_repr", "list")
+            integral = all(float(b) == int(b) for b in case["bins"])
+            bins = list(case["bins"])
+            if rep == "int_list" and integral:
+                bins = [int(b) for b in bins]               # the same edges written as Python ints
+            elif rep == "ndarray":
+                bins = np.array(bins, dtype=float)
+            elif rep == "int_ndarray" and integral:
+                bins = np.array([int(b) for b in bins], dtype=np.int64)
+        if case.get("reuse"):
+            # the SAME estimator object has analysed another sample before, handed over in the SAME list object, which was then
+            # refilled in place (same number of events, same multiplicities): nothing of the first sample may survive
+            try:
+                pre = [[dict(s, p=(i % 3) + 1, q=2) for i, s in enumerate(ev)] for ev in case["events"]]
+                L = [[mk_particle(s, case["n"]) for s in ev] for ev in pre]
+                if case["mode"] == "int":
+                    obj.integrated_flow(L)
+                else:
+                    obj.differential_flow(L, bins, case["sel"], case["poi"])
+                if case["reuse"] == "inner":
+                    for i in range(len(L)):
+                        L[i][:] = evs[i]
+                else:
+                    L[:] = evs
+                evs = L
+            except Exception:
+                pass
         try:
             if case["mode"] == "int":
                 out["flow"] = {"val": float(obj.integrated_flow(evs)[0])}
             else:
-                r = obj.differential_flow(evs, list(case["bins"]), case["sel"], case["poi"])
+                r = obj.differential_flow(evs, bins, case["sel"], case["poi"])
                 out["flow"] = {"bins": [None if len(b) == 0 else float(np.real(b[0])) for b in r]}
         except (ValueError, TypeError, IndexError, UnboundLocalError, ZeroDivisionError) as e:
             out["flow"] = {"err": type(e).__name__}
@@ -323,6 +352,9 @@ def gen_case(rng, small=False, errors=True):
             edges = rng.choice([[v, v + 1.0], [v - 1.0, v], [v - 1.0, v, v + 1.0]])
         case["bins"] = edges
         case["poi"] = rng.choice([None, None, [211], [211, -211], [2212], [3122]])
+        case["bins_repr"] = rng.choice(["list", "list", "int_list", "ndarray", "int_ndarray"])
+    if rng.random() < 0.2:
+        case["reuse"] = rng.choice(["inner", "outer"])
     if errors and rng.random() < 0.03:
         case["k"] = rng.choice([3, 5, 8])
     if errors and rng.random() < 0.03:
